@@ -17,8 +17,8 @@ enum avg_mode {
 struct report_time_stat {
 	uint64_t sum;
 	uint64_t rec; /* time in recursive call */
-	uint64_t sum_sq;
-	uint64_t rec_sq;
+	double sum_sq; /* sums of squares: 64 bits overflow from 4.3 s on */
+	double rec_sq;
 	uint64_t avg;
 	double stdv;
 	uint64_t min;
